@@ -641,8 +641,8 @@ func init() {
 		ID:    "C14",
 		Level: "exploration",
 		Rule: "same worlds as C08; every fetcher / registry / finder call and every BuildTracer event is appended to one sequence-numbered log. Offline checker: fetch count ==1 per closure package and 0 outside; version-list requests ==1 per registry package; source-address requests ==1 per selected (package, version); finder runs per (content, sub-path, finder) == number of distinct closure addresses mapping to it; per-key bracket automaton start -> (success|failure) -> already*; " +
-			"termination is decided logically: a build that makes more than 4x the reference closure's callbacks (+20) is aborted and reported. The same checker also runs over builds whose 2-8 Add calls are made concurrently on one builder (race-instrumented worker, yields injected in the callbacks). non-trivial = closure larger than the added set or a repeated Add; distinct = world",
-		Assumptions: []string{"event order is not constrained, only counts and brackets", "fault-free worlds only"},
+			"termination is decided logically: a build that makes more than 4x the reference closure's callbacks (+20) is aborted and reported. The same checker also runs over builds whose 2-8 Add calls are made concurrently on one builder (race-instrumented worker, yields injected in the callbacks). The bracket automaton alone also runs over builds in which one fetch / registry callback fails, for every such position of generated worlds (a failure answers a start and may be followed by a retry; already only after a success). non-trivial = closure larger than the added set or a repeated Add; distinct = world",
+		Assumptions: []string{"event order is not constrained, only counts and brackets", "the counting clauses are checked on fault-free worlds only"},
 		Phases:      c14phases,
 	})
 	c17 := bundleWorldPhases("C17")
